@@ -91,7 +91,7 @@ func c05Scenarios(tier string) []e1lib.Scenario {
 			done = append(done, "err-eof")
 		}
 		if c.Late > 0 {
-			done = nil // the consumer really sleeps for a day on the real runtime
+			done = nil // the consumer really sleeps on the real runtime
 		}
 		name := stageName(c)
 		if d {
@@ -149,13 +149,13 @@ func c05Scenarios(tier string) []e1lib.Scenario {
 			}
 		}
 	}
-	// a consumer that is a day late at one point (virtual clock): whatever timers a stage may use internally, a slow
+	// a consumer that is five minutes late at one point (virtual clock; a timer of a second fires 300 times meanwhile): whatever timers a stage may use internally, a slow
 	// consumer only delays the stream; and a fold over an "empty" element that is not neutral still starts from it
 	for _, st := range []string{"map", "fmap", "filter", "takewhile", "take", "partition", "fold"} {
 		for k := 2; k <= 3; k++ {
 			for cp := 0; cp <= 1; cp++ {
 				for at := 0; at <= 2; at++ {
-					c := stage.Cfg{Stage: st, K: k, N: k, Cap: cp, Stop: -1, Stop2: -1, Late: 86400e9, LateAt: at}
+					c := stage.Cfg{Stage: st, K: k, N: k, Cap: cp, Stop: -1, Stop2: -1, Late: 300e9, LateAt: at}
 					switch st {
 					case "map":
 						c.Mode = "pure"
@@ -226,6 +226,6 @@ func c05Scenarios(tier string) []e1lib.Scenario {
 
 func propC05() drv.Property {
 	return table("C05",
-		"one case = one sequential stage (Map with Pure/Lift/Try, FMap with LiftF/TryF, Filter, TakeWhile, Take, Partition, Fold, ForEach, Void, Seq/ToSeq) x input 1..k (k<=4, 6 in thorough) x input capacity 0..2 x every predicate pattern (2^k) x every Take n in 0..k+1, with a producer thread, the stage's goroutine(s) and one draining consumer thread per output; every interleaving is explored (state-cached, unbounded; preemption bound 4 for k>=5 FMap/Partition); the same stages instantiated at element type any with nil interface values among the elements; Seq over 17..300 arguments with the caller overwriting its slice after the call; a consumer that is a day late (virtual clock) before its first, second or third receive; Fold over an operation whose 'empty' element is not neutral; every stage over 9, 17 and 33 elements explored up to 3 (thorough 4) deviations from the default schedule (a deviation = a preemption, a non-default thread at a blocking point or a non-default ready select arm); the outcome of a case is deterministic by design, so non-trivial = k>=2 and more than one schedule",
+		"one case = one sequential stage (Map with Pure/Lift/Try, FMap with LiftF/TryF, Filter, TakeWhile, Take, Partition, Fold, ForEach, Void, Seq/ToSeq) x input 1..k (k<=4, 6 in thorough) x input capacity 0..2 x every predicate pattern (2^k) x every Take n in 0..k+1, with a producer thread, the stage's goroutine(s) and one draining consumer thread per output; every interleaving is explored (state-cached, unbounded; preemption bound 4 for k>=5 FMap/Partition); the same stages instantiated at element type any with nil interface values among the elements; Seq over 17..300 arguments with the caller overwriting its slice after the call; a consumer that is five minutes late (virtual clock) before its first, second or third receive; Fold over an operation whose 'empty' element is not neutral; every stage over 9, 17 and 33 elements explored up to 3 (thorough 4) deviations from the default schedule (a deviation = a preemption, a non-default thread at a blocking point or a non-default ready select arm); the outcome of a case is deterministic by design, so non-trivial = k>=2 and more than one schedule",
 		commonAssumptions, c05Scenarios)
 }
